@@ -165,6 +165,10 @@ def asInt : Val → Option Int
 def looseEq (a b : Val) : Bool :=
   match a, b with
   | .int _ x, .int _ y => x == y
+  -- a float is carried by its printed form: it equals an integer exactly when it prints as that integer (3.0 prints "3")
+  | .float _ _ p, .int _ y => p == intToStr y
+  | .int _ x, .float _ _ q => intToStr x == q
+  | .float _ _ p, .float _ _ q => p == q
   | a, b => Val.beq a b
 
 def unsupported : Res Val := .err "expr" "unsupported".toList
